@@ -69,7 +69,8 @@ ChainWalk(st, pos, i, acc) ==
   ELSE LET b == BlockAt(st, pos) IN
        IF b = 0 THEN acc                                   \* nothing stored there: the generator never produces this
        ELSE LET kg == st.blocks[b].kg
-                nxt == IF kg.next > 0 /\ i < st.number_of_keygroups - 1 THEN kg.next ELSE pos + 150
+                \* a keygroup block is 38 + 28 * (stored number of velocity zones) bytes long: 150 for the usual 4 zones
+                nxt == IF kg.next > 0 /\ i < st.number_of_keygroups - 1 THEN kg.next ELSE pos + 38 + 28 * Len(kg.zones)
             IN ChainWalk(st, nxt, i + 1, Append(acc, kg))
 Keygroups(st) == ChainWalk(st, IF st.first_keygroup_address > 0 /\ st.number_of_keygroups > 0 THEN st.first_keygroup_address ELSE 72, 0, <<>>)
 
